@@ -8,7 +8,7 @@
 //   nw<w>:<cap>:<id>:<hexname>   create writer        lg<w>:<site>:<len>   log one event (payload: u32 w, u32 seq, filler)
 //   cl<w>  destroy writer        co  consume          cn<k>:<op>  consume, running <op> (a lock-free lg) at the k-th point inside it
 //   cs  setClockSync             nm<w>:<hexname>  rename            rc  reconsumeMetadata
-// output: one line "snap <point> <file> completed=<w.seq,...> inflight=<w.seq|-> out=<hex>" per image, then "points <n> <status>"
+// output: one line "snap <point> <file> completed=<w.seq,...> inflight=<w.seq|-> out=<hex> after=<ops done, -1 inside an operation>" per image, then "points <n> <status>"
 #include <algorithm>
 #include <atomic>
 #include <cstdint>
@@ -38,6 +38,8 @@ static std::string problem;
 static std::vector<std::pair<int,int>> completed;
 static std::pair<int,int> inflight{-1, -1};
 static std::string out;                      // what consume has written so far
+static long boundary = -1;                   // >= 0: this point lies between two operations, after that many of them
+static std::vector<long> bpoints;            // the numbers of the points that lie between two operations
 static char mapsbuf[1 << 18];
 
 static std::string hex(const std::string& s)
@@ -83,6 +85,7 @@ static void point()
 {
   if (!active) return;                      // teardown of the session itself is not an instant the property speaks about
   const long me = ++counter;
+  if (boundary >= 0) bpoints.push_back(me);
   if (in_consume && !in_nested)
   {
     ++consume_points;
@@ -98,7 +101,7 @@ static void point()
     if (completed.empty()) t << '-';
     t << " inflight=";
     if (inflight.first >= 0) t << inflight.first << '.' << inflight.second; else t << '-';
-    t << " out=" << (out.empty() ? std::string("-") : hex(out));
+    t << " out=" << (out.empty() ? std::string("-") : hex(out)) << " after=" << boundary;
     const std::string line = t.str();
     dump(path.c_str());
     std::cout << line << std::endl;
@@ -233,10 +236,13 @@ int main(int argc, char** argv)
   for (const std::string& p : splitc(argv[2], ',')) { if (!p.empty() && p != "count") vc::chosen.insert(std::stol(p)); }
   {
     Runner r;
-    for (int i = 3; i < argc; ++i) { r.run(argv[i]); vc::point(); }
+    for (int i = 3; i < argc; ++i) { r.run(argv[i]); vc::boundary = i - 2; vc::point(); vc::boundary = -1; }
     vc::point();
     vc::active = false;
   }
+  std::cout << "boundaries";
+  for (long b : vc::bpoints) std::cout << ' ' << b;
+  std::cout << std::endl;
   std::cout << "points " << vc::counter << ' ' << (vc::problem.empty() ? "ok" : vc::problem) << std::endl;
   return 0;
 }
